@@ -9,7 +9,7 @@ claimed = {
  "C02": ("fault_enumeration", "5/C02", "every single-bit flip of each generated dialect frame is injected (enumerated) plus drawn substitutions, bursts and wrong-CRC_EXTRA repairs; delivery is predicted by the bitwise reference CRC; x25 is compared with the bitwise CRC under drawn splits",
          "frames are sampled; per frame the single-bit damage space is enumerated completely; harness dialect only",
          "deterministic simulation with fault injection: damaging link in front of the real reader"),
- "C05": ("exploration", "5/C05", "seeded search over byte streams x segmentations x injected transport errors against the real frame.Reader; oracles: totality, progress (<= n+1 calls), chunking independence, span = frame, resynchronisation on clean streams",
+ "C05": ("exploration", "5/C05", "seeded search over byte streams x segmentations x injected transport errors against the real frame.Reader; oracles: totality, progress (<= n+1 calls), chunking independence, span = frame, resynchronisation on clean streams, delivered frames stay as delivered, a transport failure during a call is reported as itself (every offset for short streams)",
          "samples of an unbounded input/segmentation space",
          "deterministic simulation with fault injection: simulated transport (segmentation, zero-length reads, EOF, injected read error)"),
  "C06": ("fault_enumeration", "5/C06", "every single-bit alteration of a reference-signed frame (enumerated) and forged / unsigned / v1 / wrong-key / re-stamped / padded-after-signing frames, authentic frames with canonical and non-canonical payloads, through the real keyed reader with a reference SHA-256 verdict; signed output of streamwriter.Writer and frame.Writer.WriteMessage verified by the reference; a real node with an incoming key (any outgoing version) under the C10 event-stream oracles; node-level outgoing signing verified in the C09/C11 wire logs",
